@@ -269,8 +269,8 @@ fn fmt_write_to(cv: &CV, f: &str) -> Result<String, ()> {
 
 /// Route 3: pre-parsed items (`StrftimeItems::parse` + `format_with_items`). A format string that
 /// does not parse counts as a formatting failure.
-fn fmt_items(cv: &CV, f: &str) -> Result<String, ()> {
-    let items = StrftimeItems::new(f).parse().map_err(|_| ())?;
+fn fmt_items(cv: &CV, f: &str, owned: bool) -> Result<String, ()> {
+    let items = if owned { StrftimeItems::new(f).parse_to_owned().map_err(|_| ())? } else { StrftimeItems::new(f).parse().map_err(|_| ())? };
     let mut s = String::new();
     let r = match cv {
         CV::D(x) => write!(&mut s, "{}", x.format_with_items(items.iter())),
@@ -1276,19 +1276,22 @@ fn check_case(loc: &mut Local, x: &Ix, v: &V, toks: &[Tok], phase: usize, routes
     if routes & R_ITEMS != 0 {
         loc.eval();
         loc.bucket(x.r_items);
-        match guard(|| fmt_items(&cv, &fmt)) {
-            Ok(r) => {
-                if r != got {
-                    loc.violation(
-                        "C12/format_with_items(StrftimeItems::parse)/differs-from-format",
-                        json!({"value": v.j(), "format": fmt, "format()": format!("{:?}", got), "format_with_items": format!("{:?}", r)}),
-                    );
+        // borrowed items (`parse`) and owned items (`parse_to_owned`) must print what `format` prints
+        for owned in [false, true] {
+            match guard(|| fmt_items(&cv, &fmt, owned)) {
+                Ok(r) => {
+                    if r != got {
+                        loc.violation(
+                            if owned { "C12/format_with_items(StrftimeItems::parse_to_owned)/differs-from-format" } else { "C12/format_with_items(StrftimeItems::parse)/differs-from-format" },
+                            json!({"value": v.j(), "format": fmt, "format()": format!("{:?}", got), "format_with_items": format!("{:?}", r)}),
+                        );
+                    }
                 }
+                Err(p) => loc.violation(
+                    &format!("C12/format_with_items/panic@{}", p.site()),
+                    json!({"value": v.j(), "format": fmt, "panic": p.to_json()}),
+                ),
             }
-            Err(p) => loc.violation(
-                &format!("C12/format_with_items/panic@{}", p.site()),
-                json!({"value": v.j(), "format": fmt, "panic": p.to_json()}),
-            ),
         }
     }
 
@@ -1340,6 +1343,12 @@ fn bad_tokens() -> Vec<Tok> {
     }
     for s in ["%-D", "%_F", "%0T", "%-c", "%_r", "%0x", "%-X", "%_v", "%0R", "%-R", "%_T"] {
         v.push(Tok::Bad(s.to_string(), BadKind::ModOnComposite));
+    }
+    // the `#` flag exists for `%#z` only (and that one is for parsing): every other letter after it is unknown
+    for c in ('a'..='z').chain('A'..='Z') {
+        if c != 'z' && !matches!(c, 'Y' | 'm') {
+            v.push(Tok::Bad(format!("%#{}", c), BadKind::Unknown));
+        }
     }
     v.push(Tok::Bad("%#z".to_string(), BadKind::ParseOnly));
     v
